@@ -69,6 +69,15 @@ def cells(tier):
             out.append(cell(f"s{old} A2|flush,size{new},B2", sc, MON))
         sc = scen(pool(old, "SimpleTaskPool"), [[S("S", 2)], [FLUSH, ["set_size", 1], S("T", 2)]], outcomes=["ret"])
         out.append(cell(f"simple s{old} S2|flush,size1,T2", sc, MON))
+    # flush() waits on a task parked in its end callback while a task of the same pool is cancelled and parks in its
+    # cancel callback beyond the flush: the waiting request still gets all its invocations
+    sc = scen(pool(1), [[A("E", 1), A("A", 1), A("B", 2, worker="instant")], [cancel(rid("A", 0))], [FLUSH]], outcomes=["ret"],
+              ecb="slow", ccb="slow", slow_ids=[["ecb", 0, 0], ["ccb", 0, 1]])
+    out.append(cell("s1 E1,A1,B2 cancelA0 flush slow ecb(E)/ccb(A)", sc, MON))
+    if not q:
+        sc = scen(pool(2), [[A("A", 1)], [A("C", 1)], [A("B", 2)], [cancel(rid("C", 0))], [FLUSH]], outcomes=["ret"],
+                  ecb="slow", ccb="slow", slow_ids=[["ecb", 0, 0], ["ccb", 0, 1]])
+        out.append(cell("T s2 A1|C1|B2 cancelC0 flush slow ecb(A)/ccb(C)", sc, MON))
     sc = scen(pool("inf"), [[A("A", 3)], [FLUSH, ["set_size", 5], ["set_size", 2], A("B", 2)], [LOCK, UNLOCK]], outcomes=["ret"])
     out.append(cell("sinf A3|flush,size5,size2,B2|lock,unlock", sc, MON))
     if not q:
